@@ -59,6 +59,14 @@ where
 
             match ready!(self.as_mut().project().inner.poll_next(cx)?) {
                 Some(r) => {
+                    // `r` is tracked by now, so it counts itself. Requests that ended while it
+                    // was being read (e.g. a cancellation processed by the same poll) no longer
+                    // count against the limit.
+                    if self.as_mut().in_flight_requests().saturating_sub(1)
+                        < *self.as_mut().project().max_in_flight_requests
+                    {
+                        return Poll::Ready(Some(Ok(r)));
+                    }
                     let _entered = r.span.enter();
                     tracing::info!(
                         in_flight_requests = self.as_mut().in_flight_requests(),
